@@ -31,14 +31,15 @@ theorem kkt_gives_dualcone_projection (J : Mat α) (m n : Nat) (hJ : MatWF J m n
     InDualCone J (combine n J w) ∧
     ∀ y : Vec α, y.length = n → InDualCone J y →
       sqdist (combine n J w) (combine n J u) ≤ sqdist y (combine n J u) := by
-  sorry
+  exact ⟨Cone.kkt_dualcone J m n hJ u w hu hk,
+    fun y hy hcone => Cone.kkt_projection J m n hJ u w hu hk y hy hcone⟩
 
 /-- and the projection is unique: two KKT points give the same vector (even when the weights differ,
     as they may for a singular Gramian) -/
 theorem dualcone_projection_unique (J : Mat α) (m n : Nat) (hJ : MatWF J m n) (u w w' : Vec α)
     (hu : u.length = m) (hk : kktCheck (gram J) u w = true) (hk' : kktCheck (gram J) u w' = true) :
     combine n J w = combine n J w' := by
-  sorry
+  exact Cone.kkt_unique J m n hJ u w w' hu hk hk'
 
 /-- C04 (CAGrad).  `G` = normalised Gramian (PSD), `e` = uniform weights, `w` the solver's answer in the
     simplex, `n0² = eᵀGe`, `nw² = wᵀGw > 0`.  If `w` satisfies the first-order optimality condition of
@@ -52,6 +53,9 @@ theorem cagrad_nonconflict_of_optimality (G : Mat α) (m : Nat) (hm : 0 < m) (hG
       dot (matVec G (cagradWeights m c n0 nw normEps w)) w ≤
         (matVec G (cagradWeights m c n0 nw normEps w)).getD i 0) :
     ∀ i, i < m → 0 ≤ (matVec G (cagradWeights m c n0 nw normEps w)).getD i 0 := by
-  sorry
+  intro i hi
+  exact le_trans
+    (Cone.cagrad_nonconflict G m hm hG hpsd c n0 nw normEps hc w hw.1 hn0 hn0sq hnw hnwsq hge)
+    (hopt i hi)
 
 end Tjd.Props.C03
